@@ -274,6 +274,187 @@ def script_level(ck, tier):
             os.unlink(f)
 
 
+def miner_script_level(ck, tier):
+    """the mining script end to end (MinerWatcher.__call__ with its worker processes, queues and network thread replaced by
+    in-process stand-ins): it reserves a key, finds a block that pays it, and then dies of a storage fault before it rotates
+    the key; after that the wallet FILE must not list the paid key as unused (the next start would hand it out again).  Also:
+    the wallet loader never replaces an existing wallet file because opening it failed once"""
+    import sys
+    import simnet
+    import nodeharness
+    from skepticoin import mining as MI
+    from skepticoin import consensus as C
+    from skepticoin.datatypes import Block, BlockHeader
+    from skepticoin.wallet import Wallet, save_wallet
+    from skepticoin.scripts import utils as SU
+    rng = ck.rng
+    keys = chaingen.Keys()
+    # ---- (a) loader
+    for f in ('wallet.json', 'wallet.json.new'):
+        if os.path.exists(f):
+            os.unlink(f)
+    w0 = Wallet.empty()
+    w0.generate_keys(4)
+    w0.get_annotated_public_key('handed out')
+    save_wallet(w0)
+    before = open('wallet.json', 'rb').read()
+    state = {'n': 0}
+    real_open = open
+
+    def flaky_open(path, mode='r', *a, **k):
+        if os.path.basename(str(path)) == 'wallet.json' and 'r' in mode and 'w' not in mode and state['n'] == 0:
+            state['n'] += 1
+            raise OSError(24, 'Too many open files')
+        return real_open(path, mode, *a, **k)
+    SU.open = flaky_open
+    try:
+        with contextlib.redirect_stdout(io.StringIO()):
+            try:
+                SU.open_or_init_wallet()
+            except OSError:
+                pass
+    finally:
+        del SU.open
+    ck.case(('loader-open-fails',), kind='wallet-loader/open-fails-once')
+    if open('wallet.json', 'rb').read() != before:
+        ck.violation('wallet-file-replaced-by-loader', 'opening the existing wallet file failed once (too many open files) and the '
+                     'loader replaced it with a newly generated wallet: the earlier keys are gone', {'script': 'open_or_init_wallet'})
+    # ---- (b) miner
+    for f in ('wallet.json', 'wallet.json.new'):
+        if os.path.exists(f):
+            os.unlink(f)
+    w1 = Wallet.empty()
+    w1.generate_keys(4)
+    save_wallet(w1)
+    wallet_dir = os.getcwd()
+    with chaingen.Env(period=50) as env:
+        tg = chaingen.TreeGen(env, keys, rng)
+        n = tg.genesis
+        for _ in range(3):
+            n = tg.extend(n, txs=[], fees=0, dt=100)
+        main = list(tg.nodes)
+        with simnet.Net(seed=rng.getrandbits(30), t0=n.view.time + 50) as net:
+            sn = nodeharness.SingleNode(net, chaingen.impl_state_from(main), [m.block for m in main[1:]], npeers=1)
+            node_dir = os.getcwd()
+
+            class FakeQ:
+                def __init__(self):
+                    self.items = []
+
+                def put(self, x):
+                    self.items.append(x)
+
+            class FakeProc:
+                def __init__(self, *a, **k):
+                    pass
+
+                def start(self):
+                    pass
+
+                def join(self):
+                    pass
+
+            class Th:
+                local_peer = sn.lp()
+
+                def stop(self):
+                    pass
+
+                def join(self):
+                    pass
+            paid = {}
+
+            class Script:
+                """what the worker would send: work requests and hash results, until a nonce wins; then the disk is full"""
+                def __init__(self):
+                    self.nonce = 0
+                    self.pending = None
+                    self.done = False
+
+                def get(self):
+                    if self.done:
+                        raise KeyboardInterrupt()
+                    if self.pending is not None:
+                        item, self.pending = self.pending, None
+                        return item
+                    if self.nonce > 0:
+                        typ, (summary, height) = mw.send_queues[0].items[-1]
+                        txs = mw.mining_args[0][-1]
+                        sh = C.construct_summary_hash(summary, height)
+                        ev = C.construct_pow_evidence_after_scrypt(sh, mw.coinstate, summary, height, txs)
+                        cand = Block(BlockHeader(summary, ev), txs)
+                        if cand.hash() < cand.target:
+                            paid['pk'] = bytes(mw.public_key)
+                            paid['id'] = cand.hash()
+                            self.done = True
+                            di = sn.lp().disk_interface
+
+                            def full_disk():
+                                raise OSError(28, 'No space left on device')
+                            di.flush_blocks = full_disk
+                            return (0, 'scrypt_output', sh)
+                        self.pending = (0, 'scrypt_output', sh)
+                    self.nonce += 1
+                    if self.pending is not None:
+                        item, self.pending = self.pending, (0, 'request_scrypt_input', self.nonce)
+                        return item
+                    return (0, 'request_scrypt_input', self.nonce)
+            argv = sys.argv
+            sys.argv = ['skepticoin-mine', '--quiet']
+            saved = {}
+            try:
+                mw = MI.MinerWatcher()
+                mw.recv_queue = Script()
+
+                def load_wallet():
+                    cwd = os.getcwd()
+                    os.chdir(wallet_dir)
+                    try:
+                        return SU.open_or_init_wallet()
+                    finally:
+                        os.chdir(cwd)
+
+                def save_in_wallet_dir(w_):
+                    cwd = os.getcwd()
+                    os.chdir(wallet_dir)
+                    try:
+                        return save_wallet(w_)
+                    finally:
+                        os.chdir(cwd)
+                for name, val in (('check_chain_dir', lambda: None), ('read_chain_from_disk', lambda: sn.lp().chain_manager.coinstate),
+                                  ('open_or_init_wallet', load_wallet), ('start_networking_peer_in_background', lambda a_, c_: Th()),
+                                  ('wait_for_fresh_chain', lambda *a_, **k_: None), ('Process', FakeProc), ('Queue', FakeQ),
+                                  ('save_wallet', save_in_wallet_dir), ('time', net.clock)):
+                    if name in MI.__dict__:
+                        saved[name] = MI.__dict__[name]
+                        setattr(MI, name, val)
+                net.clock.t = max(net.clock.t, n.view.time + 1)
+                sn.node.activate()
+                with contextlib.redirect_stdout(io.StringIO()):
+                    try:
+                        mw()
+                    except (KeyboardInterrupt, SystemExit):
+                        pass
+            finally:
+                sys.argv = argv
+                for name, val in saved.items():
+                    setattr(MI, name, val)
+            os.chdir(wallet_dir)
+            ck.case(('miner-script',), kind='miner-script/dies-after-found-block', sample={'found': 'id' in paid})
+            if 'pk' in paid and paid['id'] in sn.lp().chain_manager.coinstate.block_by_hash:
+                with open('wallet.json') as f_:
+                    wf = Wallet.load(f_)
+                if paid['pk'] in wf.unused_public_keys:
+                    ck.violation('paid-key-unused-in-wallet-file', 'the mining script found a block paying its reserved key, then died of a '
+                                 'storage fault before rotating the key; the wallet FILE now lists that key as unused: the next start '
+                                 'hands it out again', {'script': 'mine', 'fault': 'flush_blocks raises ENOSPC after the found block was adopted'})
+            os.chdir(node_dir)
+    os.chdir(wallet_dir)
+    for f in ('wallet.json', 'wallet.json.new'):
+        if os.path.exists(f):
+            os.unlink(f)
+
+
 def run(tier, seed):
     ck = common.Check('C15', tier, seed)
     ck.rule = ('wallets of 0-6 key pairs; random sequences (6-20 ops) of hand-outs (receive / mining reservations), restores of '
@@ -498,6 +679,13 @@ def run(tier, seed):
     if xdev:
         import shutil
         shutil.rmtree(xdev, ignore_errors=True)
+    try:
+        miner_script_level(ck, tier)
+    except Exception:
+        import traceback
+        tb = traceback.format_exc()
+        if 'could not mine a block' not in tb:
+            ck.disagree('miner-script wallet probe crashed: %s' % tb[-700:], {})
     try:
         script_level(ck, tier)
     except Exception:
